@@ -31,7 +31,8 @@ type req struct {
 }
 
 // texts: valid documents, a layout variant with another digest, the empty text, an invalid one
-var texts = []string{"{a}", "{b}", " {a}", "{a b}", "", "garbage("}
+// (round 2, after seeded change C18-4) and white-space-only texts, which are texts, not absent texts
+var texts = []string{"{a}", "{b}", " {a}", "{a b}", "", "garbage(", " ", "\n\t "}
 var valid = map[string]bool{"{a}": true, "{b}": true, " {a}": true, "{a b}": true}
 
 func sha(t string) []byte { h := sha256.Sum256([]byte(t)); return h[:] }
@@ -234,6 +235,8 @@ func alphabet() []req {
 		a = append(a, req{ExtKind: 3, Version: 2.0, Hash: hexOf(t)}) // wrong version
 	}
 	a = append(a, req{ExtKind: 3, Version: 1.0, Hash: hexOf("")})
+	a = append(a, req{Query: " ", ExtKind: 3, Version: 1.0, Hash: hexOf("{a}")}) // white-space-only text + hash of a registered document
+	a = append(a, req{Query: " ", ExtKind: 3, Version: 1.0, Hash: hexOf(" ")})
 	a = append(a, req{ExtKind: 3, Version: 1.0})
 	a = append(a, req{Query: "{a}", ExtKind: 2})
 	a = append(a, req{ExtKind: 2})
